@@ -230,8 +230,8 @@ CHECKS["C10"] = dict(
     rule=("cases = orthogonal scenes built to force sharing: 1-3 rows x 2-4 columns of rectangles with corridors of width {6,12,30,60}, 2-10 connectors between centre pins "
           "and free points, idealNudgingDistance {1,4,10,25}, segmentPenalty {10,50,200}; half of the cases with the default nudging options, half over all 2^4 combinations; "
           "30% of scenes carry checkpoints. route() and displayRoute() are compared. non-trivial = two connectors without a common end are collinear in the raw routes"),
-    workloads=[dict(harness="c10_nudge", mode="nudge", quick=12000, thorough=400000, watchdog=120, san_thorough=6000)],
-    min_nontrivial=dict(quick=2000, thorough=30000),
+    workloads=[dict(harness="c10_nudge", mode="nudge", quick=30000, thorough=400000, watchdog=120, san_thorough=6000)],
+    min_nontrivial=dict(quick=5000, thorough=30000),
     max_inconclusive=0.08,
     require_obs=["routes", "pairs_sharing_a_raw_stretch", "checkpoints_checked", "separated_pairs_checked", "two_sharer_pairs_checked"],
     assumptions=["an overlapping stretch is excused when both segments are pinned (first/last segment of a route or carrying a checkpoint) or when the corridor alongside both full segments is narrower than (sharers-1) x distance",
